@@ -65,6 +65,27 @@ func guarded(d time.Duration, f func()) (returned bool, panicked any) {
 
 const fullGuard = 2 * time.Second
 
+// wedgeErr: guarded harness code did not come back.
+type wedgeErr struct{ msg string }
+
+func (e *wedgeErr) Error() string { return e.msg }
+
+// guardedErr runs a whole property evaluation under a guard, so that a call
+// into tcell that never returns becomes a failure of the case instead of
+// hanging the test process.  where() describes how far the evaluation got.
+func guardedErr(d time.Duration, where func() string, f func() error) error {
+	done := make(chan error, 1)
+	go func() { done <- pbt.Safe(f) }()
+	tm := time.NewTimer(d)
+	defer tm.Stop()
+	select {
+	case e := <-done:
+		return e
+	case <-tm.C:
+		return &wedgeErr{msg: fmt.Sprintf("a call into the screen did not return within %v (deadlock): %s", d, where())}
+	}
+}
+
 // lifeErr carries the finding class of a failure (empty: unknown).
 type lifeErr struct {
 	msg   string
